@@ -364,6 +364,9 @@ type concReadCase struct {
 	SizeB    int    `json:"size_b"`
 	Msize    uint32 `json:"msize"`
 	After    bool   `json:"hold_after"` // hold the first read after the backend has filled its buffer (else on entry)
+	// SameFile: the reads issued meanwhile go through the SAME client File (other
+	// offsets, the same length as the held read)
+	SameFile bool `json:"same_file,omitempty"`
 }
 
 func runConcReadCase(c concReadCase) *fail {
@@ -441,7 +444,20 @@ func runConcReadCase(c concReadCase) *fail {
 	case <-time.After(20 * time.Second):
 		return failf("harness-gate", "HARNESS-ERROR the first read never reached the backend (%s)", desc)
 	}
+	var keptBufs [][]byte
+	var keptWant [][]byte
 	for k := 0; k < 3; k++ {
+		if c.SameFile {
+			off := 200 + k*10
+			bufB := make([]byte, c.SizeA)
+			n, err := a.ReadAt(bufB, int64(off))
+			want := contentA[min(off, len(contentA)):min(off+c.SizeA, len(contentA))]
+			if (err != nil && err != io.EOF) || !bytes.Equal(bufB[:n], want) {
+				return failf("read-data-wrong:concurrent-same-file", "a ReadAt of file a (%d bytes at %d) issued through the same File while a ReadAt at 0 was in progress returned n=%d err=%v and bytes %x…, the file holds %x… (%s)", c.SizeA, off, n, err, bufB[:min(n, 12)], want[:min(len(want), 12)], desc)
+			}
+			keptBufs, keptWant = append(keptBufs, bufB[:n]), append(keptWant, want)
+			continue
+		}
 		bufB := make([]byte, c.SizeB)
 		n, err := b.ReadAt(bufB, int64(k*10))
 		want := contentB[k*10 : min(k*10+c.SizeB, len(contentB))]
@@ -457,6 +473,11 @@ func runConcReadCase(c concReadCase) *fail {
 	case <-time.After(20 * time.Second):
 		return failf("read-hangs:concurrent", "the first ReadAt did not return (%s)", desc)
 	}
+	for k := range keptBufs {
+		if !bytes.Equal(keptBufs[k], keptWant[k]) {
+			return failf("read-data-wrong:buffer-changed-after-return", "the buffer of a ReadAt that had returned (same File, offset %d) was changed when the earlier ReadAt completed (%s)", 200+k*10, desc)
+		}
+	}
 	want := contentA[:min(c.SizeA, len(contentA))]
 	if (ra.err != nil && ra.err != io.EOF) || !bytes.Equal(bufA[:ra.n], want) {
 		return failf("read-data-wrong:concurrent", "the ReadAt of file a (%d bytes) that was in progress while file b was read returned n=%d err=%v and bytes %x…, the file holds %x… (%s)", c.SizeA, ra.n, ra.err, bufA[:min(ra.n, 12)], want[:min(len(want), 12)], desc)
@@ -471,7 +492,7 @@ func TestC11(t *testing.T) {
 	rapidCases(h, "concurrent-reads", env.PerShard(env.Pick(400, 20000)), func(rt *rapid.T) concReadCase {
 		return concReadCase{EOFReads: rapid.IntRange(0, 4).Draw(rt, "eof"), SizeA: rapid.SampledFrom([]int{1, 100, 3000, 5000, 12000}).Draw(rt, "sa"),
 			SizeB: rapid.SampledFrom([]int{1, 100, 3000, 5000}).Draw(rt, "sb"), Msize: rapid.SampledFrom([]uint32{4096, 8192, 65536}).Draw(rt, "msize"),
-			After: rapid.Bool().Draw(rt, "after")}
+			After: rapid.Bool().Draw(rt, "after"), SameFile: rapid.IntRange(0, 2).Draw(rt, "samefile") == 0}
 	}, func(c concReadCase) *fail {
 		h.Case(evid.HashJSON(c), c.EOFReads > 0, "concurrent-reads")
 		return runConcReadCase(c)
